@@ -32,8 +32,8 @@ CHECKS = {
          "Every short path (all comparison atoms, functions) is evaluated on every small document in which one leaf (or the root, or two leaves) is replaced by a non-JSON value; the model treats such a value as an opaque scalar, so values, failure and the ErrorTypeUnmatched text naming the Go type must agree, and nothing may panic.",
          "Trusted: the reference model (no special case for non-JSON values), identity comparison for reference kinds.", "DESIGN.md §4 C20"),
  "C04": ("E-ENUM", "exploration", "bounded-exhaustive enumeration of filter-heavy paths x documents x {plain, accessor}; invariant (deep snapshot before = after) checked on every execution",
-         "Every atom, every pairwise && / || combination and depth-3 shape of the filter alphabet is placed as a filter in 8 positions, plus all short paths of every step kind; after every call, successful or not, in plain and accessor mode and in both decodings, the caller's document - and the document of the previous call, to catch recycled buffers that alias caller memory - is compared structurally with an untouched copy.",
-         "Trusted: the structural comparison; a difference is confirmed on a fresh document and fresh Parse before it is reported. The shared-between-goroutines clause is C06's.", "DESIGN.md §4 C04"),
+         "Every atom, every pairwise && / || combination and depth-3 shape of the filter alphabet is placed as a filter in 8 positions, plus all short paths of every step kind; after every call, successful or not, in plain and accessor mode and in both decodings, the caller's document - and the document of the previous call, to catch recycled buffers that alias caller memory - is compared structurally with an untouched copy; every array of the working documents has spare capacity that must stay untouched, and every user function the retrieval calls compares the document with the copy at that moment.",
+         "Trusted: the structural comparison; a difference is confirmed on a fresh document and fresh Parse before it is reported. The shared-between-goroutines clause is C06's (shared-document race pass).", "DESIGN.md §4 C04"),
  "C08": ("E-ENUM", "exploration", "bounded-exhaustive enumeration of every decomposition of every path, with a relational oracle over three or more retrievals of the implementation",
          "For every path of the bound and every split point, every recursive-descent step and every union / multi-name selector, the whole path must return exactly the concatenation, in order, of the continuation applied to each value (or each container in pre-order) selected by the prefix, and fail exactly when that concatenation is empty.",
          "Trusted: the harness's pre-order container listing; no reference model. Continuations with a $-rooted operand or an aggregate function are excluded as the property states.", "DESIGN.md §4 C08"),
@@ -56,16 +56,16 @@ CHECKS = {
          "For every string of the C02 sets the grammar file is interpreted with pure PEG semantics, the surviving actions are replayed in order through an action model that raises the documented restrictions, and the library must accept exactly when the model accepts, raise the same error class (first in action order) and produce the same error text: position = character offset of the longest accepted prefix, near = the rest of the path from that character.",
          "Trusted: the PEG interpreter h/pegi (its reading of every rule is compared with peg's own normal form in its tests), the action model h/pmodel (actions recognised by source text; degrades to acceptance-and-position checking if an action is unknown), Go's strconv/regexp/encoding/json for validity.", "DESIGN.md §4 C17, §2.5"),
  "C05": ("E-HIST", "model_checking", "exhaustive exploration of call histories x pool answers (deviation-bounded) on the real package state, instrumented build",
-         "For every path of the bound (ladder paths also in accessor mode) every history of up to 3 (thorough 4) operations over {call on 4-5 documents chosen to flip the outcome, unrelated Retrieve cycling both pools, scribble on the last result} is executed on a freshly parsed function with every pool answer sequence of at most 1 (2) deviations; each call must equal a fresh Retrieve, earlier result slices (accessors through Get) must never change, documents stay intact.",
+         "For every path of the bound (ladder paths also in accessor mode) every history of up to 3 (thorough 4) operations over {call on 4-5 documents chosen to flip the outcome and to vary the result size, unrelated Retrieve cycling both pools, scribble on the last result and append to every result held, the caller editing a document object in place} is executed on a freshly parsed function with every pool answer sequence of at most 1 (2) deviations; each call must equal a fresh Retrieve, earlier result slices (accessors through Get) must never change, documents stay intact. Single-step paths and the reduced atoms also get histories of length 4..6 (8), every path four histories on big documents, and 13 paths call the same parsed function again from inside a user function (re-entrancy).",
          "Trusted: the instrumented build (sync.Pool replaced by an explorer-owned free list), replay of a failing execution before it is reported. Histories beyond the bound are not covered.", "DESIGN.md §4 C05"),
  "C06": ("E-SCHED", "model_checking", "stateless exploration of all thread interleavings and pool answers of small closed drivers under a controlled cooperative scheduler with iterative preemption bounding; separate free-running -race pass",
-         "About 210 two- and three-thread drivers (shared parsed functions on outcome-flipping documents, Parse||Parse over failing and succeeding paths and configs, Parse||call, two functions on one document, two operations per thread) are explored over every schedule with <=1 deviation at every scheduling point and <=2 at coarse points (thorough: 2 / 3); every call must return its run-alone result, no deadlock or panic, shared documents and functions intact afterwards. The same bodies run free under the race detector with 2..24 goroutines.",
+         "About 210 hand-written two- and three-thread drivers (shared parsed functions on outcome-flipping documents, Parse||Parse over failing and succeeding paths and configs, Parse||call, two functions on one document, two operations per thread) and about 1.7k generated ones (one per short ladder path: both calls succeed on containers of different sizes, or both fail with different found types; leaves of Go types the process has never seen; a 70-member object or 70/90-element arrays first) are explored over every schedule with <=1 deviation at every scheduling point and <=2 at coarse points for the hand-written ones (thorough: 2 / 3); every call must return its run-alone result, no deadlock or panic, shared documents and functions intact afterwards. The same bodies run free under the race detector with 2..24 goroutines, and every short path is evaluated by three goroutines at once on one document object for every small, wide and big document (any write to caller data is a race).",
          "Trusted: scheduling points (lock/pool operations and every named function entry, inserted mechanically) are sufficient only together with the race pass, which is a sampled happens-before detector. More than 3 threads and weak-memory effects are outside the exhaustive part.", "DESIGN.md §4 C06, Appendix B"),
  "C07": ("E-HIST", "model_checking", "exhaustive enumeration of map iteration orders (owned by the explorer through the instrumented build) x documents with adversarial keys x paths, against the reference model's order",
          "For 16 paths with wildcard, filter, recursive, multi-name and aggregate steps and every object over 2..4-key subsets of 12 adversarial keys (plus 5..12-key objects and documents with shared containers), every iteration order at one (thorough: two) of the map ranges executed is explored, also after evaluations on maps of other sizes (pool recycling, pool answers enumerated) and after editing the same map in place; the result sequence must equal the model's in every execution.",
          "Trusted: vinstr's rewriting of every range over a string-keyed map (it reports ranges it cannot control), the reference model's ascending byte order.", "DESIGN.md §4 C07"),
  "C19": ("E-HIST", "model_checking", "exhaustive exploration of Parse call histories (depth-bounded, no deduplication) plus explicit-state BFS on a canonical hash of all package globals to a fixpoint; references from fresh subprocesses",
-         "Every history of up to 3 (thorough 4) operations over 133 Parse operations (19 paths, plain / root omitted / failing at every action / failing inside a filter parameter, x 7 configs), 'rebind f in a used Config' and 're-call an earlier function' is replayed; every outcome - exact error, or behavioural fingerprint of the returned function - must equal the same operation performed first in a fresh process. A breadth-first search over the hashed global state reaches a fixpoint. A mismatch is reduced, in fresh processes, to a short operation sequence that reproduces it.",
+         "Every history of up to 3 (thorough 4; later operations from a core alphabet) operations over about 250 Parse operations (23 paths: plain / root omitted / failing at every action / failing inside a filter parameter / longer than 64, 128 and 1024 bytes / empty, x configs: none, {f}, {g}, {f'}, accessor, all, a shared object, two Config arguments, a by-value copy modified after copying, a caller-owned Config slice), 'rebind f in a used Config' and 're-call an earlier function' is replayed; every outcome - exact error, or behavioural fingerprint of the returned function plus the outcome of the one-shot Retrieve with the same arguments - must equal the same operation performed first in a fresh process. A breadth-first search over the hashed global state reaches a fixpoint. A mismatch is reduced, in fresh processes, to a short operation sequence that reproduces it.",
          "Trusted: the fingerprint (4 probe documents, accessor-ness, function behaviour); state hidden in closures of the generated matcher is outside the hash (the depth-bounded part does not depend on it).", "DESIGN.md §4 C19"),
 }
 
